@@ -4,7 +4,7 @@ from __future__ import annotations
 from pathlib import Path
 
 
-def validate(rep: dict, proj: Path | None, executed_ids: list[str] | None, tree_after: dict | None = None) -> list[str]:
+def validate(rep: dict, proj: Path | None, executed_ids: list[str] | None, tree_after: dict | None = None, tree_before: dict | None = None) -> list[str]:
     errs = []
     if not isinstance(rep, dict) or set(rep) - {"run", "results"} or "run" not in rep or "results" not in rep:
         return ["top level must be an object with exactly `run` and `results`"]
@@ -53,7 +53,11 @@ def validate(rep: dict, proj: Path | None, executed_ids: list[str] | None, tree_
                 continue
             nlines = None
             if tree_after is not None and path in tree_after:
+                # change lines of source edits refer to the file as it was before the codemod, manifest additions to the file after:
+                # "inside the file" is judged against the longer of the two
                 nlines = len(tree_after[path].decode("utf-8", "replace").splitlines()) or 1
+                if tree_before is not None and path in tree_before:
+                    nlines = max(nlines, len(tree_before[path].decode("utf-8", "replace").splitlines()))
             for c in chs:
                 ln = c.get("lineNumber")
                 if not isinstance(ln, int) or isinstance(ln, bool) or ln < 1:
